@@ -181,6 +181,9 @@ def gen_valid(rng, tier):
                 pool = [base + r for r in rels if under(base + r, base + main_rel)] if rng.random() < 0.6 else [base + r for r in rels]
                 d = rng.choice(pool)
                 nm = rng.choice(SCRIPTS) if rng.random() < 0.7 else rng.choice(DATA)
+                kids = [r[-1] for r in rels if r and base + r[:-1] == d and "." not in r[-1]]
+                if kids and rng.random() < 0.25:
+                    nm = rng.choice(kids) + ".arrai"      # lib.arrai next to the directory lib/
                 if longnames and rng.random() < 0.3:
                     nm = LONG_SCRIPT
             if d + (nm,) not in used:
@@ -253,6 +256,22 @@ def gen_valid(rng, tier):
             L.add(d + (nm,), imps=edges[k], variant="script-nl" if x < 0.1 else "script-comment" if x < 0.15 else None)
         else:
             L.add(d + (nm,), imps=[], variant=variant[k])      # digits: valid as data and as a script without imports
+    # same-named neighbours of a script x.arrai: a directory x/ and, elsewhere, an extension-less regular file x
+    # (a wrapper, a built binary, notes): `//{./x}` must mean x.arrai for the bundler exactly as for the reader
+    for k, (d, nm) in enumerate(list(specs)):
+        stem = nm[:-6] if nm.endswith(".arrai") else None
+        if not stem or "." in stem or k == 0:
+            continue
+        alldirs = {p[:i] for p in L.files for i in range(1, len(p))}
+        twin = d + (stem,)
+        if twin in alldirs:
+            forms_used.add("dir-same-name")
+        elif (twin[len(base):] in rels) and twin not in L.files:
+            L.add(twin + ("inner.arrai",), imps=[])
+            forms_used.add("dir-same-name")
+        elif twin not in L.files and rng.random() < 0.4:
+            L.add(twin, imps=[], variant=rng.choice([None, "nl", "empty"]))
+            forms_used.add("extensionless-sibling")
     shape = {"mode": mode, "long_names": longnames, "main_depth": len(main_rel), "files": len(specs), "forms": sorted(forms_used),
              "gomod": sorted(set(modforms.values()))}
     return L, base + main_rel + (specs[0][1],), shape
@@ -341,6 +360,11 @@ CORPUS = [
     ("prefix-sibling", {"/a/b/go.mod": "module m\n", "/a/b/main.arrai": [{"root": True, "path": "/c/x", "dec": False}], "/a/b/c/x.arrai": [], "/a/bc/x.arrai": []}, "/a/b/main.arrai"),
     ("crlf", {"/r/go.mod": "module m\r\n", "/r/main.arrai": [{"root": True, "path": "/a", "dec": False}], "/r/a.arrai": []}, "/r/main.arrai"),
     ("kf06-modname-dotdot", {"/b/go.mod": "module ..\n", "/b/run.arrai": [{"root": False, "path": "/config", "dec": False}], "/b/config.arrai": []}, "/b/run.arrai"),
+    ("extless-sibling-module", {"/p/go.mod": "module example.com/proj\n", "/p/main.arrai": [{"root": False, "path": "/build", "dec": False}, {"root": False, "path": "/build.arrai", "dec": False}],
+                                "/p/build.arrai": [], "/p/build": "#!/bin/sh\n"}, "/p/main.arrai"),
+    ("extless-sibling-root-import", {"/p/go.mod": "module example.com/proj\n", "/p/cmd/main.arrai": [{"root": True, "path": "/tools/gen", "dec": False}],
+                                     "/p/tools/gen.arrai": [{"root": False, "path": "/lib", "dec": False}], "/p/tools/gen": "ELF", "/p/tools/lib.arrai": [], "/p/tools/lib/x.arrai": []}, "/p/cmd/main.arrai"),
+    ("extless-sibling-unnamed", {"/w/main.arrai": [{"root": False, "path": "/lib/notes", "dec": False}], "/w/lib/notes.arrai": [], "/w/lib/notes": "EMPTY"}, "/w/main.arrai"),
     ("zero-length-data", {"/app/go.mod": "module example.com/app\n", "/app/main.arrai": [{"root": False, "path": "/data/notes.txt", "dec": False}, {"root": True, "path": "/data/rows.csv", "dec": False}, {"root": False, "path": "/data/n.json", "dec": False}],
                           "/app/data/notes.txt": "EMPTY", "/app/data/rows.csv": "EMPTY", "/app/data/n.json": []}, "/app/main.arrai"),
     ("zero-length-data-unnamed", {"/app/main.arrai": [{"root": False, "path": "/data/notes.txt", "dec": False}, {"root": False, "path": "/w.bin", "dec": False}],
